@@ -1,9 +1,25 @@
-(** C12 — results do not depend on how the grammar is written down. *)
-From Coq Require Import List Permutation.
-Require Import Fggs.Model.Semiring Fggs.Model.SumProduct Fggs.Proofs.Presentation.
+(** C12 — results do not depend on how the grammar is written down.
+    Only property theorems live here, each closed by [exact] and followed by Print Assumptions.
+    Everything is generic in the semiring: [forall R (o : sr_ops R), sr_ring o -> ...].
+    The invariances are stated for the Kleene iterates [Zk] (by C01/C02: the sums over the
+    derivation trees of bounded depth, hence the sum over all derivations of a non-recursive
+    grammar and the approximants of the least fixed point of a recursive one), then carried to
+    [tree_sum], to the sum over all derivations and to the code-shaped driver.
+    The presentation transform of harness/gen.py [present] is the composition
+    1 (rule order) . 2 (edge order) . 3 (node order) . 4 (label numbering) . 5 (domain values);
+    theorem [C12_presentation] composes them. *)
+From Coq Require Import List Arith Bool PeanoNat Permutation.
+Import ListNotations.
+Require Import Fggs.Model.Semiring Fggs.Model.SCC Fggs.Model.SumProduct.
+Require Import Fggs.Proofs.BigSum Fggs.Proofs.SP_trees Fggs.Proofs.SP_nonrec Fggs.Proofs.SP_driver
+               Fggs.Proofs.SP_main Fggs.Proofs.SP_examples.
+Require Import Fggs.Proofs.Presentation Fggs.Proofs.Presentation_perm Fggs.Proofs.Presentation_nodes
+               Fggs.Proofs.Presentation_dom Fggs.Proofs.Presentation_relabel Fggs.Proofs.Presentation_wf
+               Fggs.Proofs.Presentation_cor
+               Fggs.Proofs.Presentation_examples.
 
-(** permuting the rule list leaves every Kleene iterate (hence, by C01/C02, the sum over
-    derivations and the least fixed point) unchanged, in every commutative semiring *)
+(** * 1. order of the rules *)
+(** permuting the rule list leaves every Kleene iterate unchanged, in every commutative semiring *)
 Theorem C12_rules_perm :
   forall R (o : sr_ops R), sr_ring o ->
   forall G G' w k X xi,
@@ -11,3 +27,314 @@ Theorem C12_rules_perm :
     Zk o G w k X xi = Zk o G' w k X xi.
 Proof. exact (@Zk_rules_perm). Qed.
 Print Assumptions C12_rules_perm.
+
+(** * 2. order of the edges inside each rule *)
+(** [rule_edges_perm r r']: same lhs, nodes, externals; [Permutation (r_edges r) (r_edges r')] *)
+Theorem C12_edges_perm :
+  forall R (o : sr_ops R), sr_ring o ->
+  forall G G' w k X xi,
+    g_doms G = g_doms G' -> g_labels G = g_labels G' ->
+    Forall2 rule_edges_perm (g_rules G) (g_rules G') ->
+    Zk o G w k X xi = Zk o G' w k X xi.
+Proof. exact (@Zk_edges_perm). Qed.
+Print Assumptions C12_edges_perm.
+
+(** * 3. order (numbering) of the nodes inside each rule *)
+(** permutations of 0..n-1 as lists: [is_perm p := Permutation p (seq 0 (length p))]; the new
+    position of old node [i] is [pfun p i := nth i p i]; [pinv p] is the inverse list *)
+Theorem C12_perm_inverse :
+  forall p, is_perm p ->
+    is_perm (pinv p) /\ length (pinv p) = length p
+    /\ (forall i, pfun (pinv p) (pfun p i) = i) /\ (forall j, pfun p (pfun (pinv p) j) = j)
+    /\ (forall i, pfun p i < length p <-> i < length p).
+Proof.
+  exact (fun p H => conj (pinv_is_perm p H) (conj (pinv_length p)
+          (conj (fun i => pfun_pinv_l p i H) (conj (fun j => pfun_pinv_r p j H) (fun i => pfun_lt_iff p i H))))).
+Qed.
+Print Assumptions C12_perm_inverse.
+
+(** the assignments of the permuted size list are the permuted assignments: [a |-> sel a p] maps
+    [all_assts sizes] one-to-one onto [all_assts (sel sizes p)] (a permutation of the list), so
+    sums over them can be re-indexed; and [sel] commutes with it *)
+Theorem C12_assignments_permuted :
+  forall R (o : sr_ops R), sr_ring o ->
+  forall sizes p (F : list nat -> R), is_perm p -> length p = length sizes ->
+    Permutation (map (fun a => sel a p) (all_assts sizes)) (all_assts (sel sizes p))
+    /\ sumS o (all_assts (sel sizes p)) F = sumS o (all_assts sizes) (fun a => F (sel a p))
+    /\ (forall a att, length a = length p -> sel (sel a p) att = sel a (map (pfun p) att)).
+Proof. exact (@assignments_permuted). Qed.
+Print Assumptions C12_assignments_permuted.
+
+(** [rule_nodes_perm p r r']: [is_perm p], [length p = length (r_nodes r')], same lhs,
+    [r_nodes r = sel (r_nodes r') p] (the label of old node i is found at new position p[i]),
+    attachments and externals of [r'] are those of [r] mapped through [pfun p] *)
+Theorem C12_nodes_perm_rule :
+  forall R (o : sr_ops R), sr_ring o ->
+  forall G G' (e e' : env (R:=R)) p r r' xi,
+    g_doms G = g_doms G' -> (forall l idx, e l idx = e' l idx) -> rule_nodes_perm p r r' ->
+    rule_val o G' e' r' xi = rule_val o G e r xi.
+Proof. exact (@rule_val_nodes_perm). Qed.
+Print Assumptions C12_nodes_perm_rule.
+
+Theorem C12_nodes_perm :
+  forall R (o : sr_ops R), sr_ring o ->
+  forall G G' w k X xi,
+    g_doms G = g_doms G' -> g_labels G = g_labels G' ->
+    Forall2 (fun r r' => exists p, rule_nodes_perm p r r') (g_rules G) (g_rules G') ->
+    Zk o G' w k X xi = Zk o G w k X xi.
+Proof. exact (@Zk_nodes_perm). Qed.
+Print Assumptions C12_nodes_perm.
+
+(** the transform as gen.py computes it satisfies the relation *)
+Theorem C12_permute_nodes_rel :
+  forall p r, is_perm p -> length p = length (r_nodes r) -> rule_nodes_perm p r (permute_nodes p r).
+Proof. exact permute_nodes_rel. Qed.
+Print Assumptions C12_permute_nodes_rel.
+
+(** * 4. numbering of the edge labels and node labels *)
+(** [relabelled pel pnl G G'] (record, Proofs/Presentation_relabel.v): [pel] injective on the
+    labels of [G]; [dom G' (pnl nl) = dom G nl]; [is_term G' (pel l) = is_term G l];
+    [ltype G' (pel l) = map pnl (ltype G l)]; [g_start G' = pel (g_start G)]; rules correspond
+    one by one with lhs and edge labels through [pel], node labels through [pnl] *)
+Theorem C12_relabel :
+  forall R (o : sr_ops R), sr_ring o ->
+  forall pel pnl G G' (w w' : env (R:=R)),
+    wf_grammar G = true -> relabelled pel pnl G G' ->
+    (forall l idx, l < length (g_labels G) -> is_term G l = true -> w' (pel l) idx = w l idx) ->
+    forall k X xi, X < length (g_labels G) -> Zk o G' w' k (pel X) xi = Zk o G w k X xi.
+Proof. exact (fun R o _ => @Zk_relabel R o). Qed.
+Print Assumptions C12_relabel.
+
+(** the transform computed from two permutation lists, weights precomposed with the inverse *)
+Theorem C12_relabel_transform :
+  forall R (o : sr_ops R), sr_ring o ->
+  forall pe pn G (w : env (R:=R)),
+    wf_grammar G = true ->
+    is_perm pe -> length pe = length (g_labels G) -> is_perm pn -> length pn = length (g_doms G) ->
+    relabelled (pfun pe) (pfun pn) G (relabel_grammar pe pn G)
+    /\ forall k X xi, X < length (g_labels G) ->
+         Zk o (relabel_grammar pe pn G) (relabel_weights pe w) k (pfun pe X) xi = Zk o G w k X xi.
+Proof.
+  exact (fun R o _ pe pn G w Hwf He Hle Hn Hln =>
+           conj (relabel_grammar_rel pe pn G He Hle Hn Hln)
+                (@Zk_relabel_grammar R o pe pn G w Hwf He Hle Hn Hln)).
+Qed.
+Print Assumptions C12_relabel_transform.
+
+(** * 5. permuting the values of every domain together with the factor axes *)
+(** [dom_perms G rho]: every node label [nl] of [G] has a permutation [rho nl] of its values;
+    [pmap rho tys idx] applies them coordinatewise ([tys] = node labels of the coordinates);
+    [vlab G l]: [l] is a label of [G]; [vidx G l idx]: [idx] is an index tuple of its shape *)
+Theorem C12_domain_perm :
+  forall R (o : sr_ops R), sr_ring o ->
+  forall G rho (w w' : env (R:=R)),
+    wf_grammar G = true -> dom_perms G rho ->
+    (forall l idx, vlab G l -> vidx G l idx -> is_term G l = true ->
+                   w' l (pmap rho (ltype G l) idx) = w l idx) ->
+    forall k X xi, vlab G X -> vidx G X xi ->
+      Zk o G w' k X (pmap rho (ltype G X) xi) = Zk o G w k X xi.
+Proof. exact (@Zk_dom_perm). Qed.
+Print Assumptions C12_domain_perm.
+
+(** ... with [w' l idx' = w l (rho^-1 idx')] *)
+Theorem C12_domain_perm_weights :
+  forall R (o : sr_ops R), sr_ring o ->
+  forall G rho (w : env (R:=R)),
+    wf_grammar G = true -> dom_perms G rho ->
+    forall k X xi, vlab G X -> vidx G X xi ->
+      Zk o G (permute_weights G rho w) k X (pmap rho (ltype G X) xi) = Zk o G w k X xi.
+Proof. exact (@Zk_dom_perm_weights). Qed.
+Print Assumptions C12_domain_perm_weights.
+
+(** [all_assts] is closed under applying coordinatewise bijections, which are inverted by the
+    inverse permutations and commute with restriction *)
+Theorem C12_assignments_domain_perm :
+  forall G rho tys a,
+    (forall nl, In nl tys -> is_perm (rho nl) /\ length (rho nl) = dom G nl) ->
+    In a (all_assts (map (dom G) tys)) ->
+    In (pmap rho tys a) (all_assts (map (dom G) tys))
+    /\ pmap (rho_inv rho) tys (pmap rho tys a) = a
+    /\ pmap rho tys (pmap (rho_inv rho) tys a) = a
+    /\ forall att, (forall i, In i att -> i < length tys) ->
+         sel (pmap rho tys a) att = pmap rho (map (fun i => nth i tys 0) att) (sel a att).
+Proof. exact assignments_domain_perm. Qed.
+Print Assumptions C12_assignments_domain_perm.
+
+(** * 6. the whole presentation transform *)
+(** [presents rho pel pnl G G']: [dom_perms G rho] and there are G2, G3, G4 with
+    [relabelled pel pnl G G2]; G3 = G2 with the nodes of every rule renumbered; G4 = G3 with the
+    edge list of every rule permuted; G' = G4 with the rule list permuted *)
+Theorem C12_presentation :
+  forall R (o : sr_ops R), sr_ring o ->
+  forall rho pel pnl G G' (w w' : env (R:=R)),
+    wf_grammar G = true -> presents rho pel pnl G G' ->
+    (forall l idx, vlab G l -> vidx G l idx -> is_term G l = true ->
+                   w' (pel l) (pmap rho (ltype G l) idx) = w l idx) ->
+    forall k X xi, vlab G X -> vidx G X xi ->
+      Zk o G' w' k (pel X) (pmap rho (ltype G X) xi) = Zk o G w k X xi.
+Proof. exact (@Zk_presentation). Qed.
+Print Assumptions C12_presentation.
+
+(** * 7. the sums over derivation trees *)
+Theorem C12_tree_sum_rules_perm :
+  forall R (o : sr_ops R), sr_ring o ->
+  forall G G' (w : env (R:=R)) k X xi,
+    g_doms G = g_doms G' -> g_labels G = g_labels G' -> Permutation (g_rules G) (g_rules G') ->
+    is_term G X = false -> tree_sum o G' w k X xi = tree_sum o G w k X xi.
+Proof. exact (@tree_sum_rules_perm). Qed.
+Print Assumptions C12_tree_sum_rules_perm.
+
+Theorem C12_tree_sum_edges_perm :
+  forall R (o : sr_ops R), sr_ring o ->
+  forall G G' (w : env (R:=R)) k X xi,
+    g_doms G = g_doms G' -> g_labels G = g_labels G' -> Forall2 rule_edges_perm (g_rules G) (g_rules G') ->
+    is_term G X = false -> tree_sum o G' w k X xi = tree_sum o G w k X xi.
+Proof. exact (@tree_sum_edges_perm). Qed.
+Print Assumptions C12_tree_sum_edges_perm.
+
+Theorem C12_tree_sum_nodes_perm :
+  forall R (o : sr_ops R), sr_ring o ->
+  forall G G' (w : env (R:=R)) k X xi,
+    g_doms G = g_doms G' -> g_labels G = g_labels G' -> rules_nodes_perm (g_rules G) (g_rules G') ->
+    is_term G X = false -> tree_sum o G' w k X xi = tree_sum o G w k X xi.
+Proof. exact (@tree_sum_nodes_perm). Qed.
+Print Assumptions C12_tree_sum_nodes_perm.
+
+Theorem C12_tree_sum_relabel :
+  forall R (o : sr_ops R), sr_ring o ->
+  forall pel pnl G G' (w w' : env (R:=R)) k X xi,
+    wf_grammar G = true -> relabelled pel pnl G G' ->
+    (forall l idx, l < length (g_labels G) -> is_term G l = true -> w' (pel l) idx = w l idx) ->
+    X < length (g_labels G) -> is_term G X = false ->
+    tree_sum o G' w' k (pel X) xi = tree_sum o G w k X xi.
+Proof. exact (@tree_sum_relabel). Qed.
+Print Assumptions C12_tree_sum_relabel.
+
+Theorem C12_tree_sum_domain_perm :
+  forall R (o : sr_ops R), sr_ring o ->
+  forall G rho (w w' : env (R:=R)) k X xi,
+    wf_grammar G = true -> dom_perms G rho ->
+    (forall l idx, vlab G l -> vidx G l idx -> is_term G l = true -> w' l (pmap rho (ltype G l) idx) = w l idx) ->
+    vlab G X -> vidx G X xi -> is_term G X = false ->
+    tree_sum o G w' k X (pmap rho (ltype G X) xi) = tree_sum o G w k X xi.
+Proof. exact (@tree_sum_dom_perm). Qed.
+Print Assumptions C12_tree_sum_domain_perm.
+
+Theorem C12_tree_sum_presentation :
+  forall R (o : sr_ops R), sr_ring o ->
+  forall rho pel pnl G G' (w w' : env (R:=R)) k X xi,
+    wf_grammar G = true -> presents rho pel pnl G G' ->
+    (forall l idx, vlab G l -> vidx G l idx -> is_term G l = true ->
+                   w' (pel l) (pmap rho (ltype G l) idx) = w l idx) ->
+    vlab G X -> vidx G X xi -> is_term G X = false ->
+    tree_sum o G' w' k (pel X) (pmap rho (ltype G X) xi) = tree_sum o G w k X xi.
+Proof. exact (@tree_sum_presentation). Qed.
+Print Assumptions C12_tree_sum_presentation.
+
+(** non-recursive grammars ([ranked]): whenever the Kleene iterates of two grammars correspond
+    at (X, xi) / (X', xi'), so do the sums over ALL their derivation trees, each tree being
+    enumerated exactly once *)
+Theorem C12_all_derivations_transfer :
+  forall R (o : sr_ops R), sr_ring o ->
+  forall G G' (w w' : env (R:=R)) rank rank' X X' xi xi',
+    ranked G rank -> ranked G' rank' -> is_term G X = false -> is_term G' X' = false ->
+    (forall k, Zk o G' w' k X' xi' = Zk o G w k X xi) ->
+    forall k k', length (nonterminals G) <= k -> length (nonterminals G') <= k' ->
+      sumS o (enum_trees G' k' X' xi') (weight o G' w') = sumS o (enum_trees G k X xi) (weight o G w)
+      /\ (forall t, In t (enum_trees G k X xi) <-> wf_dtree G X xi t)
+      /\ (forall t, In t (enum_trees G' k' X' xi') <-> wf_dtree G' X' xi' t).
+Proof. exact (@all_trees_transfer). Qed.
+Print Assumptions C12_all_derivations_transfer.
+
+(** a presentation of a non-recursive grammar is non-recursive (the rank function is carried
+    along), its labels keep their shapes, transported index tuples are index tuples *)
+Theorem C12_presentation_preserves :
+  forall rho pel pnl G G', wf_grammar G = true -> presents rho pel pnl G G' ->
+    (forall rank, ranked G rank -> ranked G' (rank_back pel (length (g_labels G)) rank))
+    /\ (forall X, vlab G X -> is_term G' (pel X) = is_term G X /\ lshape G' (pel X) = lshape G X)
+    /\ (forall X xi, vlab G X -> vidx G X xi -> In (pmap rho (ltype G X) xi) (all_assts (lshape G' (pel X)))).
+Proof.
+  exact (fun rho pel pnl G G' Hwf Hp =>
+    conj (fun rank => presents_ranked rho pel pnl G G' rank Hwf Hp)
+   (conj (fun X HX => conj (presents_is_term rho pel pnl G G' X Hp HX) (presents_lshape rho pel pnl G G' X Hwf Hp HX))
+         (fun X xi => presents_vidx rho pel pnl G G' X xi Hwf Hp))).
+Qed.
+Print Assumptions C12_presentation_preserves.
+
+Theorem C12_all_derivations_presentation :
+  forall R (o : sr_ops R), sr_ring o ->
+  forall rho pel pnl G G' (w w' : env (R:=R)) rank X xi,
+    wf_grammar G = true -> presents rho pel pnl G G' ->
+    (forall l idx, vlab G l -> vidx G l idx -> is_term G l = true ->
+                   w' (pel l) (pmap rho (ltype G l) idx) = w l idx) ->
+    ranked G rank -> vlab G X -> vidx G X xi -> is_term G X = false ->
+    forall k k', length (nonterminals G) <= k -> length (nonterminals G') <= k' ->
+      let xi' := pmap rho (ltype G X) xi in
+      sumS o (enum_trees G' k' (pel X) xi') (weight o G' w') = sumS o (enum_trees G k X xi) (weight o G w)
+      /\ (forall t, In t (enum_trees G k X xi) <-> wf_dtree G X xi t)
+      /\ (forall t, In t (enum_trees G' k' (pel X) xi') <-> wf_dtree G' (pel X) xi' t).
+Proof. exact (@all_trees_presentation). Qed.
+Print Assumptions C12_all_derivations_presentation.
+
+(** * 8. the code-shaped driver: order of the components, presentations *)
+(** any two dependency-respecting orders of singleton components give the same tables *)
+Theorem C12_scc_order_irrelevant :
+  forall R (o : sr_ops R), sr_ring o ->
+  forall G w ord ord',
+    wf_grammar G = true -> (forall l, tget w l <> None -> is_term G l = true) ->
+    dep_ordered G [] ord -> dep_ordered G [] ord' ->
+    forall X xi, In X ord -> In X ord' -> In xi (all_assts (lshape G X)) ->
+      env_of o (sum_products_nonrec o G w (map (fun x => [x]) ord)) X xi
+      = env_of o (sum_products_nonrec o G w (map (fun x => [x]) ord')) X xi.
+Proof. exact (@scc_order_irrelevant). Qed.
+Print Assumptions C12_scc_order_irrelevant.
+
+(** ... in particular any two component lists accepted by the verified SCC oracle of C19 *)
+Theorem C12_scc_order_irrelevant_oracle :
+  forall R (o : sr_ops R), sr_ring o ->
+  forall G w order order',
+    wf_grammar G = true -> (forall l, tget w l <> None -> is_term G l = true) ->
+    scc_ok (nt_graph G) order = true -> nonrecursive_order G order = true ->
+    scc_ok (nt_graph G) order' = true -> nonrecursive_order G order' = true ->
+    forall X xi, is_term G X = false -> In xi (all_assts (lshape G X)) ->
+      env_of o (sum_products_nonrec o G w order) X xi = env_of o (sum_products_nonrec o G w order') X xi.
+Proof. exact (@scc_order_irrelevant_scc). Qed.
+Print Assumptions C12_scc_order_irrelevant_oracle.
+
+(** the model of sum_products on a presentation of a non-recursive grammar, whatever the two
+    dependency-respecting orders, returns the canonical tables re-indexed *)
+Theorem C12_model_presentation :
+  forall R (o : sr_ops R), sr_ring o ->
+  forall rho pel pnl G G' w w' ord ord' X xi,
+    wf_grammar G = true -> wf_grammar G' = true -> presents rho pel pnl G G' ->
+    (forall l, tget w l <> None -> is_term G l = true) -> (forall l, tget w' l <> None -> is_term G' l = true) ->
+    (forall l idx, vlab G l -> vidx G l idx -> is_term G l = true ->
+                   env_of o w' (pel l) (pmap rho (ltype G l) idx) = env_of o w l idx) ->
+    dep_ordered G [] ord -> dep_ordered G' [] ord' -> In X ord -> In (pel X) ord' ->
+    vlab G X -> vidx G X xi ->
+    env_of o (sum_products_nonrec o G' w' (map (fun x => [x]) ord')) (pel X) (pmap rho (ltype G X) xi)
+    = env_of o (sum_products_nonrec o G w (map (fun x => [x]) ord)) X xi.
+Proof. exact (@sum_products_nonrec_presentation). Qed.
+Print Assumptions C12_model_presentation.
+
+(** * 9. the hypotheses are satisfiable *)
+(** a grammar and a presentation of it in which every ingredient is non-trivial
+    (Proofs/Presentation_examples.v), related weights, ranks, orders; and the values agree *)
+Theorem C12_example_hypotheses :
+  wf_grammar P_ex = true /\ wf_grammar P_ex' = true
+  /\ presents rho_ex (pfun pe_ex) (pfun pn_ex) P_ex P_ex'
+  /\ (forall l idx, vlab P_ex l -> vidx P_ex l idx -> is_term P_ex l = true ->
+        w_ex' (pfun pe_ex l) (pmap rho_ex (ltype P_ex l) idx) = w_ex l idx)
+  /\ ranked P_ex (fun X => match X with 3 => 1 | _ => 0 end)
+  /\ ranked P_ex' (fun X => match X with 1 => 1 | _ => 0 end)
+  /\ dep_ordered P_ex [] [2; 3] /\ dep_ordered P_ex' [] [3; 1]
+  /\ rule_edges_perm ex_rule ex_rule_edges
+  /\ rule_nodes_perm [2; 0; 1] ex_rule (permute_nodes [2; 0; 1] ex_rule)
+  /\ Zk nat_ops_example P_ex w_ex 3 2 [0] = 49 /\ Zk nat_ops_example P_ex' w_ex' 3 3 [1] = 49.
+Proof.
+  exact (conj (proj1 P_ex_wf) (conj (proj2 P_ex_wf) (conj P_ex_presents (conj w_ex_related
+        (conj (proj1 P_ex_ranked) (conj (proj2 P_ex_ranked) (conj (proj1 P_ex_orders) (conj (proj2 P_ex_orders)
+        (conj ex_rule_edges_perm (conj ex_rule_nodes_perm
+        (conj (proj1 P_ex_values) (proj1 (proj2 P_ex_values))))))))))))).
+Qed.
+Print Assumptions C12_example_hypotheses.
